@@ -644,7 +644,7 @@ pub proof fn lemma_xz_rt_blocks(e: Seq<u8>, data: Seq<u8>, tail: Seq<u8>)
     reveal_with_fuel(sp_xz_blocks, 2);
 }
 
-#[verifier::rlimit(40)]
+#[verifier::rlimit(200)]
 pub proof fn lemma_xz_roundtrip(e: Seq<u8>, data: Seq<u8>)
     requires l2_decodes_to(e, data), enc_mb(12 + e.len()).len() <= 9, enc_mb(data.len()).len() <= 9,
         enc_xz_index(12 + e.len(), data.len()).len() / 4 - 1 <= 0xFFFF_FFFF,
